@@ -16,9 +16,10 @@
 (* One LINES record per behaviour carries the machine's exact outcome for  *)
 (* the replay into cgt_core::calculator::calculate.                        *)
 (***************************************************************************)
-EXTENDS Lines, TLC, Json
+EXTENDS Lines, TLC, Json, IOUtils
 
-CONSTANTS MinLines, MaxLines, AlphabetSel      \* AlphabetSel: the indices of the alphabet that may be used
+CONSTANTS FromFile,                  \* TRUE: the line lists are read from the ndjson file named by the environment variable LINESFILE
+          MinLines, MaxLines, AlphabetSel      \* AlphabetSel: the indices of the alphabet that may be used
 
 VARIABLES L, timing, dist, pc, day, si, pool, claimed, hold, rem, legs, err
 avars == <<L, timing, dist, pc, day, si, pool, claimed, hold, rem, legs, err>>
@@ -59,9 +60,18 @@ MC_AlphaFills == {2, 3, 6, 4, 19, 8}
 MC_AlphaSplits == {1, 6, 10, 18, 4, 11, 20}
 Injective(f) == \A i, j \in DOMAIN f : i # j => f[i] # f[j]
 
+\* line lists written by the harness (seeded random files of 8-14 lines, three securities, eight day slots): far longer
+\* than anything enumerated; the refinement is checked on each and the machine's outcome goes back to the harness
+FileRecs == IF FromFile THEN ndJsonDeserialize(IOEnv.LINESFILE) ELSE <<>>
+LineOfJson(x) == [d |-> x[1], s |-> x[2], op |-> x[3], q |-> x[4], p |-> x[5], f |-> x[6]]
+MC_LDayNo8 == <<0, 1, 2, 29, 30, 31, 32, 61>>
+MC_LSecs3 == <<"AAA", "BBB", "CCC">>
+
 Init ==
-  /\ \E n \in MinLines..MaxLines : \E f \in [1..n -> AlphabetSel] :
-        Injective(f) /\ LInit([i \in 1..n |-> Alphabet[f[i]]])
+  /\ IF FromFile
+     THEN \E i \in 1..Len(FileRecs) : LInit([j \in 1..Len(FileRecs[i].lines) |-> LineOfJson(FileRecs[i].lines[j])])
+     ELSE \E n \in MinLines..MaxLines : \E f \in [1..n -> AlphabetSel] :
+            Injective(f) /\ LInit([i \in 1..n |-> Alphabet[f[i]]])
   /\ L = [s \in SecSet |-> [d \in DaysL |-> A!NoCell]]
   /\ timing = "end" /\ dist = [s \in SecSet |-> [e \in DaysL |-> [a \in DaysL |-> Zero]]]
   /\ pc = "idle" /\ day = 1 /\ si = 1
